@@ -14,8 +14,24 @@ INV = ("forall(implies(v in self.phases, v is not None and self.leftmost_variant
 R.contract("PhasedBlock.add", params={"self": REF("PhasedBlock"), "variant": REF("Variant"), "phase": INT},
            requires=[("inv", INV)],
            ensures=[("inv", INV), ("inserted", "variant in self.phases and self.phases[variant] == phase"),
-                    ("others-kept", "forall(implies(v is not variant, (v in self.phases) == old(v in self.phases)), v=Variant)")],
+                    ("others-kept", "forall(implies(v is not variant, (v in self.phases) == old(v in self.phases) and self.phases[v] == old(self.phases[v])), v=Variant)"),
+                    ("other-blocks-untouched", "OTHER_BLOCKS_SAME(self)")],
            modifies=["PhasedBlock.phases", "PhasedBlock.leftmost_variant", "PhasedBlock.rightmost_variant"], props=["C12"])
+
+
+
+@R.spec
+def OTHER_BLOCKS_SAME(eng, st, blk):
+    """frame: no other block's fields change"""
+    import z3
+    A = z3.ArraySort
+    I, B = z3.IntSort(), z3.BoolSort()
+    n = z3.Int(fresh_name("n"))
+    eqs = []
+    for key, srt in (("PhasedBlock.phases#dom", A(I, B)), ("PhasedBlock.phases#map", A(I, I)), ("PhasedBlock.leftmost_variant", I), ("PhasedBlock.rightmost_variant", I), ("PhasedBlock.chromosome", I)):
+        eqs.append(eng.heap_arr(st, key, srt)[n] == eng.heap_arr(st.old, key, srt)[n])
+    return z3.ForAll([n], z3.Implies(n != to_z3(blk), z3.And(*eqs)))
+
 
 R.contract("PhasedBlock.span", params={"self": REF("PhasedBlock")}, returns=INT,
            requires=[("inv", INV), ("nonempty", "len(self.phases) > 0")],
@@ -54,3 +70,46 @@ for _name, _field, _param in [("add_unphased", "unphased", "unphased"), ("add_va
                ensures=[("adds", "self.%s == old(self.%s) + %s" % (_field, _field, _param))] +
                        [("keeps-" + c, "self.%s == old(self.%s)" % (c, c)) for c in _COUNTERS if c != _field],
                modifies=["PhasingStats." + _field], props=["C12"])
+
+
+# ---- PhasedBlock.__init__ and split (C12: block lengths are computed on non-overlapping pieces -- split is how an outer block is cut around a nested one)
+R.contract("PhasedBlock.__init__", params={"self": REF("PhasedBlock"), "chromosome": INT},
+           ensures=[("empty", "len(self.phases) == 0 and forall(not (v in self.phases), v=Variant)"), ("no-ends", "self.leftmost_variant is None and self.rightmost_variant is None"),
+                    ("chromosome", "self.chromosome == chromosome"), ("other-blocks-untouched", "OTHER_BLOCKS_SAME(self)")],
+           modifies=["PhasedBlock.phases", "PhasedBlock.leftmost_variant", "PhasedBlock.rightmost_variant", "PhasedBlock.chromosome"], props=["C12"])
+
+_INVB = ("forall(implies(v in {b}.phases, v is not None and {b}.leftmost_variant.position <= v.position and v.position <= {b}.rightmost_variant.position), v=Variant)"
+         " and (len({b}.phases) == 0 or ({b}.leftmost_variant in {b}.phases and {b}.rightmost_variant in {b}.phases))")
+_PART = ("forall(iff(v in {b}.phases, old(v in self.phases) and {seen} and {cond}) and implies(v in {b}.phases, {b}.phases[v] == old(self.phases[v])), v=Variant)")
+_SELF_SAME = "forall((v in self.phases) == old(v in self.phases) and self.phases[v] == old(self.phases[v]), v=Variant)"
+_FRESH = "{b} is not None and fresh_block({b}) and {b} is not self"
+
+
+@R.spec
+def fresh_block(eng, st, b):
+    import z3
+    return z3.And(to_z3(b) >= st.old.alloc["pre:PhasedBlock"], to_z3(b) < eng.alloc_bound(st, "PhasedBlock"))
+
+
+R.contract(
+    "PhasedBlock.split", params={"self": REF("PhasedBlock"), "split_left": INT, "split_right": INT}, returns=TUPLE(REF("PhasedBlock"), REF("PhasedBlock")),
+    requires=[("ordered", "split_left <= split_right"), ("keys-valid", "forall(implies(v in self.phases, v is not None), v=Variant)")],
+    ensures=[
+        ("two-new-blocks", _FRESH.format(b="result[0]") + " and " + _FRESH.format(b="result[1]") + " and result[0] is not result[1]"),
+        ("left-part-is-everything-left-of-split_left", _PART.format(b="result[0]", seen="True", cond="v.position < split_left")),
+        ("right-part-is-everything-right-of-split_right", _PART.format(b="result[1]", seen="True", cond="v.position > split_right")),
+        ("parts-are-well-formed-blocks", _INVB.format(b="result[0]") + " and " + _INVB.format(b="result[1]")),
+        ("this-block-unchanged", _SELF_SAME),
+        ("same-chromosome", "result[0].chromosome == self.chromosome and result[1].chromosome == self.chromosome"),
+    ],
+    modifies=["PhasedBlock.phases", "PhasedBlock.leftmost_variant", "PhasedBlock.rightmost_variant", "PhasedBlock.chromosome"],
+    locals={"left_block": REF("PhasedBlock"), "right_block": REF("PhasedBlock"), "variant": REF("Variant"), "phase": INT},
+    loops={0: dict(index="vi", inv=[
+        ("fresh", _FRESH.format(b="left_block") + " and " + _FRESH.format(b="right_block") + " and left_block is not right_block"),
+        ("left", _PART.format(b="left_block", seen="visited(0, v)", cond="v.position < split_left")),
+        ("right", _PART.format(b="right_block", seen="visited(0, v)", cond="v.position > split_right")),
+        ("well-formed", _INVB.format(b="left_block") + " and " + _INVB.format(b="right_block")),
+        ("self-same", _SELF_SAME),
+        ("chromosome", "left_block.chromosome == self.chromosome and right_block.chromosome == self.chromosome")])},
+    extra={"allocates": ["PhasedBlock"]},
+    props=["C12"])
